@@ -192,6 +192,28 @@ func systematicPkgCases(id *int, profile, scratch string, rng *rand.Rand, tier s
 			c.Changelog = []ChEntry{{"1.2.3", 1500000000, "Jane Doe <jane@example.org>", []string{"first line\nsecond line of the same note\nthird", "single"}}}
 			add(c, smallTree(), "changelog-multiline")
 		}
+		// build metadata with the prefixes apk knows (p, cvs, svn, git, hg) and without; a numeric prerelease with and without a
+		// release; the suffix `git describe` appends
+		for _, m := range []string{"hg20240117", "git5", "svn12", "cvs3", "p1", "20240117", "build.5", "hotfix"} {
+			c := baseCfg("metapfx")
+			c.Version = "1.4.0+" + m
+			c.Release = "2"
+			add(c, smallTree(), "apk-meta-prefix")
+		}
+		for _, v := range []string{"1.2.3-4", "1.2.3-0", "v1.2.3-4-gdeadbee", "1.2.3-12-g0a1b2c3", "1.2.3-7.8"} {
+			for _, rel := range []string{"", "3"} {
+				c := baseCfg("numpre")
+				c.Version, c.Release = v, rel
+				add(c, smallTree(), "numeric-prerelease")
+			}
+		}
+		// a platform other than linux (deb prefixes the architecture with it; apk and archlinux refuse)
+		for _, plat := range []string{"freebsd", "kfreebsd", "darwin"} {
+			c := baseCfg("platpkg")
+			c.Platform = plat
+			c.Arch = "arm64"
+			add(c, smallTree(), "other-platform")
+		}
 		{ // a changelog file that has no entries (yet)
 			c := baseCfg("chlogemptypkg")
 			c.Changelog = []ChEntry{}
@@ -258,6 +280,16 @@ func systematicPkgCases(id *int, profile, scratch string, rng *rand.Rand, tier s
 			c.Entries = []Entry{plain}
 			add(c, nodes, "slots")
 		}
+		// one script file used for several slots (a dispatching maintainer script)
+		for _, slots := range [][]string{{"preinstall", "preremove"}, {"postinstall", "postremove", "preinstall"}, commonSlots} {
+			c := baseCfg("sharedscript")
+			nodes := append(smallTree(), addScripts(rng, c, slots[:1])...)
+			for _, sl := range slots[1:] {
+				c.Scripts[sl], c.ScriptCid[sl], c.ScriptMt[sl] = c.Scripts[slots[0]], c.ScriptCid[slots[0]], c.ScriptMt[slots[0]]
+			}
+			c.Entries = []Entry{plain}
+			add(c, nodes, "shared-script")
+		}
 		// block-aligned and empty scripts (the last member of a cut tar segment ends exactly on a block boundary)
 		for _, size := range []int{0, 512, 1024, 511, 513} {
 			for _, slots := range [][]string{{"preinstall"}, {"postinstall", "preremove"}, {"preinstall", "apk.preupgrade", "archlinux.postupgrade", "deb.templates", "rpm.verify"}} {
@@ -317,6 +349,49 @@ func systematicPkgCases(id *int, profile, scratch string, rng *rand.Rand, tier s
 				c.Entries = []Entry{plain, {Type: ty.t, Src: ty.src, Dst: "/etc/typepkg/item", Tag: tag}}
 				add(c, smallTree(), "typetag")
 			}
+		}
+		// the same matrix below /usr/share/doc (where rpm's own tooling treats files specially) for the file-backed types
+		for _, ty := range types {
+			if ty.t == "dir" || ty.t == "tree" || ty.t == "symlink" {
+				continue
+			}
+			for _, tag := range []string{"", "rpm"} {
+				c := baseCfg("docdirpkg")
+				c.Entries = []Entry{plain, {Type: ty.t, Src: ty.src, Dst: "/usr/share/doc/docdirpkg/item", Tag: tag}}
+				add(c, smallTree(), "typetag-docdir")
+			}
+		}
+		// typed entries whose source is itself a symbolic link to a file
+		for _, ty := range []string{"doc", "licence", "license", "readme", "config", "config|noreplace", "file"} {
+			c := baseCfg("lnksrcpkg")
+			c.Entries = []Entry{plain, {Type: ty, Src: "src/sub/lnk", Dst: "/usr/share/lnksrcpkg/item"}}
+			add(c, smallTree(), "symlink-source")
+		}
+		// names with characters that mean something to printf-style formatting, shells and globs
+		{
+			c := baseCfg("pctpkg")
+			c.NoGlob = true
+			c.Entries = []Entry{plain, {Type: "file", Src: "src/app.conf", Dst: "/usr/share/pctpkg/release%20notes.txt"},
+				{Type: "file", Src: "src/extra.conf", Dst: "/usr/share/pctpkg/100%done"}, {Type: "config", Src: "src/app.conf", Dst: "/etc/pctpkg/%s.conf"},
+				{Type: "file", Src: "src/empty", Dst: "/usr/share/pctpkg/%d%%"}, {Type: "symlink", Src: "100%done", Dst: "/usr/share/pctpkg/%v"},
+				{Type: "dir", Dst: "/var/lib/pctpkg/%x"}, {Type: "file", Src: "src/bin", Dst: "/usr/share/pctpkg/a$b`c'd\"e;f&g"}}
+			add(c, smallTree(), "percent-names")
+		}
+		// the generated Debian changelog and a content entry at its path (addressed to everyone / to rpm only): for deb the two
+		// collide and nothing may be built; the other formats ship the entry
+		for _, tag := range []string{"", "rpm", "deb"} {
+			c := baseCfg("chlogclash")
+			c.Changelog = []ChEntry{{"1.2.3", 1500000000, "Jane Doe <jane@example.org>", []string{"note"}}}
+			c.Entries = []Entry{plain, {Type: "file", Src: "src/app.conf", Dst: "/usr/share/doc/chlogclash/changelog.Debian.gz", Tag: tag}}
+			add(c, smallTree(), "changelog-clash")
+		}
+		// the package mtime given through SOURCE_DATE_EPOCH (0: the epoch itself)
+		for _, sde := range []int{0, 1234567890} {
+			c := baseCfg("sdepkg")
+			c.Pmt, c.PmtZero, c.UseSDE = sde, sde == 0, true
+			c.Entries = []Entry{plain, {Type: "dir", Dst: "/var/lib/sdepkg"}, {Type: "symlink", Src: "/usr/bin/tool", Dst: "/usr/bin/t2"}, {Type: "tree", Src: "src/sub", Dst: "/usr/share/sdepkg"},
+				{Type: "file", Src: "src/app.conf", Dst: "/etc/sdepkg/own-mtime.conf", Fi: Fi{Mt: 1300000000}, HasFi: true}}
+			add(c, smallTree(), "source-date-epoch")
 		}
 		// a config glob that expands one entry to several files
 		for _, ty := range []string{"config", "config|noreplace", "config|missingok"} {
